@@ -149,7 +149,7 @@ func genCrash(t *rapid.T) drive.CrashCase {
 		rounds = append(rounds, drive.CrashRound{To: to, SelA: rapid.Uint32().Draw(t, "selA"), SelB: rapid.Uint32().Draw(t, "selB")})
 		prev = to
 	}
-	return drive.CrashCase{Program: p, Rounds: rounds}
+	return drive.CrashCase{Program: p, Rounds: rounds, ChildVerifies: rapid.Bool().Draw(t, "childverifies")}
 }
 
 func maxBody(p *drive.Program) int {
